@@ -5,7 +5,7 @@ with UUID5 uninterpreted: create (SuitUUID.from_obj), the MPI record (MpiGenerat
 and the role table of `image boot` (EnvelopeStorage.assign_role / _find_role).
 """
 from pyvc.contract import Contract
-from pyvc.types import Int, Bool, Bytes, Str, Obj, PathStr, OneOf, ListT, NoneT, Const, DictT, EnumT, ClsT, Opt
+from pyvc.types import Int, Bool, Bytes, Str, Obj, PathStr, OneOf, ListT, NoneT, Const, DictT, EnumT, ClsT, Opt, Computed
 
 PROPERTY = "C13"
 LEVEL = "proof"
@@ -45,6 +45,7 @@ c.returns("keyed_by_class_id", "HEX(class_id(vendor_name, class_name)) in self._
 c.returns("entry", "self._assignments[HEX(class_id(vendor_name, class_name))] == "
                    "{'vendor_id': vendor_id(vendor_name), 'class_id': class_id(vendor_name, class_name), 'role': role}")
 c.returns("one_entry_added", "len(self._assignments) == 1")
+c.callers_inline = True  # stated for an empty table; callers (EnvelopeStorage.__init__) execute the body on their own table
 
 c = Contract(FI, "EnvelopeStorage._find_role", ["C13"])
 c.param("self", Obj(FI, "EnvelopeStorage", _assignments=DictT()))
@@ -71,6 +72,7 @@ def _two_entries(it, env):
 
 
 c.setup = _two_entries
+c.callers_inline = True  # the ghost table belongs to this contract's own verification; callers (add_envelope, C07) execute the body
 c.returns("lookup_by_hex_of_class_id",
           "(result == R0) if HEX(class_id) == K0 else ((result == R1) if HEX(class_id) == K1 else (result is None))")
 
@@ -97,7 +99,11 @@ c.model_only = True
 c.modular_only_reason = "file reading + line loop; assumed to populate the dict with the entries of the file (line parser verified separately)"
 c.param("self", Obj(FCFG, "BuildConfiguration"))
 c.param("input_file", Str())
-c.modifies(**{"self.__dict_base__": _cfg_type(NAMES)})
+# the configuration modelled for EnvelopeStorage.__init__ (every configured class id is compared with every default: one path per
+# coincidence) has two configurable roles in the quick tier, three in the thorough tier
+import os as _os
+INIT_NAMES = NAMES if _os.environ.get("VERIF_TIER") == "thorough" else ["ROOT", "APP_LOCAL_1"]
+c.modifies(**{"self.__dict_base__": Computed(lambda it, env: _cfg_type(INIT_NAMES if it.verifying == (FI, "EnvelopeStorage.__init__") else NAMES))})
 c.raises("SystemExit")
 
 c = Contract(FI, "EnvelopeStorage._get_role_assignments_from_kconfig", ["C13"])
@@ -147,6 +153,7 @@ def _kconfig_checks(it, ctx):
 
 
 c.check("kconfig", _kconfig_checks)
+c.callers_inline = True  # its postcondition is read off the modelled configuration: callers (EnvelopeStorage.__init__) execute the body
 c.raises("GeneratorError")
 c.raises("KeyError")  # a *_VENDOR_NAME entry without its *_CLASS_NAME (malformed configuration)
 c.raises("SystemExit")
@@ -247,3 +254,96 @@ def bounded(ctx):
                         B.fail("configured-role-applies-to-exactly-the-named-pair", case, f"{v}/{c}: role {got} expected {role}")
                         break
     return B.done()
+
+
+# ------------------------------------------------------------------------------------------------
+# EnvelopeStorage.__init__: the ORDER of the two sources (defaults first, build configuration second, later wins) decides which
+# role a class gets.  The body is executed with the real assign_role / _get_role_assignments_from_kconfig on the modelled
+# configuration (three configurable roles, arbitrary vendor/class strings, any presence combination; BuildConfiguration assumed);
+# every way a configured class id can coincide with a default's or with another configured one is a separate path.
+def _init_checks(it, ctx):
+    import z3
+    import uuid as _uuid
+    from pyvc.values import VDict, VStr, VBytes, SymKey, VNone
+    from pyvc import stubs
+    if ctx.outcome != "return":
+        return None
+    slf = ctx.arg("self")
+    table = slf.attrs.get("_assignments")
+    if not isinstance(table, VDict):
+        return [("assignments_is_a_table", z3.BoolVal(False))]
+    goals = [("base_address_kept", z3.BoolVal(slf.attrs.get("_base_address") is ctx.arg("base_address"))),
+             ("no_envelopes_yet", z3.BoolVal(isinstance(slf.attrs.get("_envelopes"), VDict) and not slf.attrs["_envelopes"].entries))]
+    roles = {"ROOT": "APP_ROOT", "APP_LOCAL_1": "APP_LOCAL_1", "RAD_LOCAL_1": "RAD_LOCAL_1"}
+    # configured pairs that are present on this path, in file order
+    calls = [t for t in it.trace if t[0] == "call" and t[1] == "BuildConfiguration.__init__"]
+    kc = ctx.arg("kconfig")
+    conf = []
+    if calls:
+        cfg = calls[0][2]["self"].attrs["__dict_base__"]
+        for key in it.dict_keys(cfg):
+            if isinstance(key, str) and key.endswith("_VENDOR_NAME") and key.startswith("SB_CONFIG_SUIT_MPI_"):
+                m = key[len("SB_CONFIG_SUIT_MPI_"):-len("_VENDOR_NAME")]
+                ck = f"SB_CONFIG_SUIT_MPI_{m}_CLASS_NAME"
+                if m in roles and ck in cfg.entries:
+                    conf.append((m, cfg.entries[key].value, cfg.entries[ck].value))
+    elif not (isinstance(kc, VNone) or (isinstance(kc, VStr) and kc.conc == "")):
+        if not it.must(z3.Length(kc.e) == 0):
+            return goals + [("configuration_was_read", z3.BoolVal(False))]
+    dns = VBytes(_uuid.NAMESPACE_DNS.bytes).e
+    K = {m: stubs.HEX(stubs.UUID5(stubs.UUID5(dns, v.e), c.e)) for m, v, c in conf}
+    # defaults (read from the class under verification)
+    ld = ctx.arg("load_defaults")
+    defaults = []
+    loaded = ld.conc if getattr(ld, "conc", None) is not None else (True if it.must(ld.e) else (False if it.must(z3.Not(ld.e)) else None))
+    if loaded is None:
+        return goals + [("defaults_decided_on_this_path", None)]
+    if loaded:
+        asg, _ = slf.cls.lookup("_CLASS_ROLE_ASSIGNMENTS")
+        for e in asg.items:
+            v, cname, role = e.entries["vendor_name"].value.conc, e.entries["class_name"].value.conc, e.entries["role"].value.name
+            cid = _uuid.uuid5(_uuid.uuid5(_uuid.NAMESPACE_DNS, v), cname)
+            defaults.append((cid.hex, role, cid.bytes, _uuid.uuid5(_uuid.NAMESPACE_DNS, v).bytes))
+
+    def key_term(k):
+        return k.v.e if isinstance(k, SymKey) else z3.StringVal(k)
+
+    entries = [(key_term(k), e.value) for k, e in table.entries.items()]
+
+    def role_is(val, name):
+        r = val.entries["role"].value if isinstance(val, VDict) and "role" in val.entries else None
+        return z3.BoolVal(r is not None and getattr(r, "name", None) == name)
+
+    # (1) every configured pair maps to ITS role (unless a later configured pair has the same class id), with the ids of that pair
+    for i, (m, v, c) in enumerate(conf):
+        later_same = [K[m2] == K[m] for m2, _, _ in conf[i + 1:]]
+        alts = []
+        for kt, val in entries:
+            ids_ok = z3.BoolVal(False)
+            if isinstance(val, VDict) and "class_id" in val.entries and "vendor_id" in val.entries:
+                ids_ok = z3.And(val.entries["class_id"].value.e == stubs.UUID5(stubs.UUID5(dns, v.e), c.e), val.entries["vendor_id"].value.e == stubs.UUID5(dns, v.e))
+            alts.append(z3.And(kt == K[m], z3.Or(z3.And(role_is(val, roles[m]), ids_ok), *later_same)))
+        goals.append((f"configured_pair_gets_its_role[{m}]", z3.Or(*alts) if alts else z3.BoolVal(False)))
+    # (2) a default stays unless the configuration names the same class id (the configuration wins)
+    for hx, role, cid, vid in defaults:
+        overridden = [K[m] == z3.StringVal(hx) for m, _, _ in conf]
+        alts = [z3.And(kt == z3.StringVal(hx), z3.Or(role_is(val, role), *overridden)) for kt, val in entries]
+        goals.append((f"default_kept_unless_configured[{role}]", z3.Or(*alts) if alts else z3.BoolVal(False)))
+    # (3) nothing else is in the table
+    for n, (kt, val) in enumerate(entries):
+        goals.append((f"only_defaults_and_configured_pairs[{n}]", z3.Or(*([kt == z3.StringVal(hx) for hx, _, _, _ in defaults] + [kt == K[m] for m, _, _ in conf]))
+                      if (defaults or conf) else z3.BoolVal(False)))
+    return goals
+
+
+c = Contract(FI, "EnvelopeStorage.__init__", ["C13", "C07"])
+c.param("self", Obj(FI, "EnvelopeStorageNrf54h20"))
+c.param("base_address", Int(0, 2 ** 32 - 1))
+c.param("load_defaults", Bool())
+c.param("kconfig", OneOf(NoneT(), Str()))
+c.variants = [(cls, {"self": Obj(FI, cls)}) for cls in ("EnvelopeStorageNrf54h20", "EnvelopeStorageNrf9280")]
+c.check("order", _init_checks)
+c.raises("GeneratorError")
+c.raises("KeyError")
+c.raises("SystemExit")
+c.callers_inline = True
